@@ -1,6 +1,7 @@
 import CssVerif.Lemmas.Codec
 import CssVerif.Lemmas.CodecInc
 import CssVerif.Lemmas.CodecEnc
+import CssVerif.Lemmas.CodecAgree
 /-!
 # C07 — CSS codec: detection follows CSS 2.1 §4.4, early answers are never revised
 
@@ -178,6 +179,96 @@ theorem encoder_chunking (I : InnerEnc) (given : Option Name) (cs : List (List N
   have h2 := efinal_step I given _ _ _ h1
   simpa using h2
 
+
+/-! ## the concrete inner codecs (CPython's UTF-8 / UTF-8-SIG / UTF-16 / UTF-32 / latin-1 / ASCII under
+`errors="strict"`, `Model/CodecInner.lean`) -/
+
+/-- T7.6 chunking invariance of every inner incremental decoder, errors included: for EVERY chunking
+(cuts inside a multi-byte character, a surrogate pair or the BOM, empty chunks) feeding the chunks and then
+`decode(b"", True)` raises iff the incremental decoder raises on the whole data at once, and otherwise
+returns exactly that text. The decoder object is modelled with its state (`self.buffer`, BOM sniffing). -/
+theorem inner_decoder_chunking (c : CName) (cs : List (List Nat)) :
+    incDecode c cs = obs (incOut c cs.flatten true) :=
+  incDecode_eq c cs
+
+/-- … and that equals the *stateless* decoder `codecs.getdecoder(name)` one-shot `decode` uses, on all data
+where CPython's stateless and incremental decoders agree (`Agree`: everything for the byte-order-fixed and
+single-byte codecs and utf-8; for utf-8-sig all data but `EF` and `EF BB`; for utf-16/32 data that is empty,
+starts with a BOM, or is ill-formed). Full statement without the guard is FALSE — see the two findings below. -/
+theorem inner_decoder_chunking_stateless_partial (c : CName) (cs : List (List Nat)) (h : Agree c cs.flatten) :
+    incDecode c cs = statelessDecode c cs.flatten := by
+  rw [incDecode_eq, stateless_agrees c _ h]; rfl
+
+/-- outside `Agree` (1): `utf-16` data without BOM — `codecs.getdecoder("utf-16")(b"a\0")` is `"a"` (native
+byte order), the incremental decoder raises "UTF-16 stream does not start with BOM" -/
+theorem finding_utf16_no_bom :
+    statelessDecode .u16 [0x61, 0] = some [0x61] ∧ incDecode .u16 [[0x61, 0]] = none ∧
+    statelessDecode .u32 [0x61, 0, 0, 0] = some [0x61] ∧ incDecode .u32 [[0x61, 0, 0, 0]] = none := by decide
+
+/-- outside `Agree` (2): `utf-8-sig` data that is a proper prefix of the BOM — the stateless decoder raises
+(truncated sequence), the incremental one keeps waiting and returns `""` even at the end of the data -/
+theorem finding_utf8sig_bom_prefix :
+    statelessDecode .u8sig [0xEF, 0xBB] = none ∧ incDecode .u8sig [[0xEF], [0xBB]] = some [] := by decide
+
+/-- T7.6 (encoder side): for every chunking of the text the inner incremental encoder writes exactly the
+bytes of the stateless encoder (the BOM of utf-8-sig / utf-16 / utf-32 once, by the first call), and one
+raises (`UnicodeEncodeError`: surrogate, or a character outside latin-1 / ASCII) iff the other does -/
+theorem inner_encoder_chunking (c : CName) (cs : List (List Nat)) :
+    incEncode c cs = statelessEncode c cs.flatten :=
+  incEncode_eq c cs
+
+/-- T7.1 (inner) round trip: what the encoder of a codec writes for a text it accepts, the decoder of the
+same codec — stateless, or incremental over ANY chunking of the bytes — reads back as exactly that text -/
+theorem inner_roundtrip (c : CName) (t bs : List Nat) (h : statelessEncode c t = some bs) :
+    statelessDecode c bs = some t ∧ ∀ cs : List (List Nat), cs.flatten = bs → incDecode c cs = some t := by
+  unfold statelessEncode at h
+  cases he : (encScan c.kind t).2 with
+  | false => simp [he] at h
+  | true =>
+    simp only [he, if_true, Option.some.injEq] at h
+    subst h
+    refine ⟨?_, ?_⟩
+    · unfold statelessDecode; rw [stateless_encode c t he]; rfl
+    · intro cs hcs
+      rw [incDecode_eq, hcs, incOut_encode c t he]; rfl
+
+/-- T7.5 for the concrete codecs: `decoder_chunking` needs no hypothesis about the inner codec any more —
+CPython's decoders (as modelled) satisfy the `Inner` laws (`cpyInner`) -/
+theorem decoder_chunking_cpython (given : Option Name) (force : Bool) (cs : List (List Nat)) :
+    runAll cpyInner given force cs = oneShot cpyInner given force cs.flatten :=
+  decoder_chunking cpyInner given force cs
+
+theorem encoder_chunking_cpython (given : Option Name) (cs : List (List Nat)) :
+    erunAll cpyInnerEnc given cs = encodeOneShot cpyInnerEnc given cs.flatten :=
+  encoder_chunking cpyInnerEnc given cs
+
+/-- T7.1 round trip of the CSS codec over the concrete inner codecs: for every encoding name `g` the model
+knows and every text whose rewritten form the codec can encode, `decode(encode(t, g), g)` is `t` with the name
+in a leading complete `@charset` rule rewritten to `g` (utf-8 for utf-8-sig) — `fixFinal t g` — and nothing else
+changed. -/
+theorem roundtrip_given (g : Name) (c : CName) (t : List Nat) (hl : lookupName g = some c)
+    (henc : (encScan c.kind (fixFinal t g)).2 = true) :
+    oneShot cpyInner (some g) true (encodeOneShot cpyInnerEnc (some g) t) = fixFinal t g := by
+  have e1 : encodeOneShot cpyInnerEnc (some g) t = c.bom ++ (encScan c.kind (fixFinal t g)).1 := by
+    simp [encodeOneShot, cpyInnerEnc, cpyEncOut, hl, encOut]
+  have e2 : finalEnc (some g) true (c.bom ++ (encScan c.kind (fixFinal t g)).1) = g := rfl
+  rw [e1]
+  unfold oneShot
+  rw [e2]
+  have e3 : cpyInner.out g (c.bom ++ (encScan c.kind (fixFinal t g)).1) true = fixFinal t g := by
+    simp only [cpyInner, cpyOut, hl, incOut_encode c _ henc]
+  rw [e3]
+  exact fixFinal_twice t g (lookup_written_noquote g c hl)
+
+/-- … and the same through the incremental classes, for EVERY chunking of the text on the encoder side and
+EVERY chunking of the bytes on the decoder side -/
+theorem roundtrip_given_chunked (g : Name) (c : CName) (ts bs : List (List Nat)) (hl : lookupName g = some c)
+    (henc : (encScan c.kind (fixFinal ts.flatten g)).2 = true)
+    (hb : bs.flatten = erunAll cpyInnerEnc (some g) ts) :
+    runAll cpyInner (some g) true bs = fixFinal ts.flatten g := by
+  rw [decoder_chunking_cpython, hb, encoder_chunking_cpython]
+  exact roundtrip_given g c ts.flatten hl henc
+
 /-! non-vacuity: the hypotheses above are met by ordinary inputs -/
 /-- an inner codec satisfying the `Inner` laws exists (identity, e.g. latin-1 on bytes) -/
 def idInner : Inner := ⟨fun _ b _ => b, fun _ a b _ => ⟨b, rfl⟩, fun _ => rfl⟩
@@ -190,5 +281,21 @@ example : detect [0x40, 0x63] false = none := by decide
 example : detect [0x61] false = some (.utf8, false) := by decide
 example : detect (prefix10 ++ [0x78] ++ 0x22 :: [0x3B]) false = some (.named [0x78], true) :=
   charset_rule [0x78] [0x3B] false (by decide)
+/-- `é€😀` in UTF-8, cut inside each character -/
+example : incDecode (.plain .u8) [[0xC3], [0xA9, 0xE2, 0x82], [0xAC, 0xF0, 0x9F], [0x98, 0x80]] =
+    some [0xE9, 0x20AC, 0x1F600] := by decide
+example : Agree .u16 ([[0xFF], [0xFE, 0x3D, 0xD8], [0x00, 0xDE]] : List (List Nat)).flatten := by
+  right; left; decide
+example : incDecode .u16 [[0xFF], [0xFE, 0x3D, 0xD8], [0x00, 0xDE]] = some [0x1F600] := by decide
+example : statelessEncode .u16 [0x1F600] = some [0xFF, 0xFE, 0x3D, 0xD8, 0x00, 0xDE] := by decide
+example : incEncode .u8sig [[0x61], [], [0xE9]] = some [0xEF, 0xBB, 0xBF, 0x61, 0xC3, 0xA9] := by decide
+example : incEncode (.plain .l1) [[0x61], [0x100]] = none := by decide
+/-- `@charset "x";é` encoded and decoded as utf-8: the name becomes utf-8 -/
+example : lookupName (cps' "utf-8") = some (.plain .u8) := by decide
+example : (encScan (CName.plain .u8).kind (fixFinal (prefix10 ++ [0x78, 0x22, 0x3B, 0xE9]) (cps' "utf-8"))).2 = true := by
+  decide
+example : oneShot cpyInner (some (cps' "utf-8")) true
+    (encodeOneShot cpyInnerEnc (some (cps' "utf-8")) (prefix10 ++ [0x78, 0x22, 0x3B, 0xE9])) =
+    prefix10 ++ cps' "utf-8" ++ [0x22, 0x3B, 0xE9] := by decide
 
 end CssVerif.C07
